@@ -1373,3 +1373,33 @@ Proof.
   - cbn [with_peer with_status m_status]. rewrite nthN_sset, N.eqb_refl, Es. reflexivity.
   - eexists. split; [cbn [with_peer with_status m_peers]; apply pget_pset_same | reflexivity].
 Qed.
+
+(* ---- C02, the known finding in the model: a reachable manager state in which a missing piece is offered by a
+   connected peer that is never asked (it was told NotInterested while the piece was reserved for a peer that then
+   left, and only its own events -- it has none to send: it waits for our Interested -- would re-evaluate it) ---- *)
+Definition sh_step (r : result mgr) (c : cmd) (pick : option N) : result mgr :=
+  match r with
+  | Ok m =>
+      (* the pick must be one the chooser can make in the state the command consults *)
+      let legit := match pick_context m c with Some (m', p) => pick_ok m' p pick | None => true end in
+      if legit then match mstep m c pick with Ok (m', _, _, _) => Ok m' | Err => Err | Panic => Panic | OutOfFuel => OutOfFuel end
+      else Err
+  | e => e
+  end.
+Definition sh_m0 : mgr :=
+  mkmgr (repeat Missing 11) [(1, new_peer (Some []) 11); (2, new_peer (Some []) 11)] [] 0 false (repeat 4 11).
+Definition sh_run : result mgr :=
+  let r := Ok sh_m0 in
+  let r := sh_step r (CBitfield 1 [255; 224]) (Some 8) in     (* peer 1 offers everything *)
+  let r := sh_step r (CUnchoke 1) (Some 8) in                 (* ... and is assigned piece 8 *)
+  let r := sh_step r (CBitfield 2 [0; 128]) None in           (* peer 2 offers only piece 8: reserved, nothing to pick *)
+  sh_step r (CKill 1) None.                                   (* peer 1 leaves without delivering *)
+
+Theorem sole_holder_left_idle :
+  match sh_run with
+  | Ok m => nthN (m_status m) 8 = Some Missing /\
+            exists p, m_peers m = [(2, p)] /\ nth 8 (p_pieces p) false = true /\
+                      p_am_interested p = false /\ p_piece_index p = None /\ p_choked p = true
+  | _ => False
+  end.
+Proof. vm_compute. split; [reflexivity|]. eexists. repeat split. Qed.
